@@ -37,6 +37,10 @@ type C08Msg struct {
 	V                kit.Hex
 	SenderID         kit.Hex
 	RO               bool
+	// put: a mutable item under one fixed key, so that puts within a scenario collide on one target and
+	// the store refuses some of them (stale seq): the refusal must still be the only datagram
+	PutSeq int64
+	PutVal int
 }
 
 type C08Sc struct {
@@ -116,6 +120,8 @@ func genC08(t *rapid.T) C08Sc {
 			m.V = genBV(t, 1, "v").Encode(true)
 			m.SenderID = genBytesN(t, 20, "senderid")
 			m.RO = rapid.IntRange(0, 5).Draw(t, "ro") == 0
+			m.PutSeq = rapid.Int64Range(0, 3).Draw(t, "putseq")
+			m.PutVal = rapid.IntRange(0, len(c13Values)-1).Draw(t, "putval")
 			batch = append(batch, m)
 		}
 		sc.Batches = append(sc.Batches, batch)
@@ -167,8 +173,16 @@ func (m C08Msg) build(token string) []byte {
 				kv = append(kv, BKV{K: "implied_port", V: bint(1)})
 			}
 		case "put":
-			v, _, _ := refmodel.Parse(m.V)
-			kv = append(kv, BKV{K: "v", V: v}, BKV{K: "seq", V: bint(0)})
+			if m.PutVal%2 == 0 {
+				// mutable, signed, colliding target
+				k := b44Key(8)
+				encV := c13Values[m.PutVal]
+				v, _, _ := refmodel.Parse([]byte(encV))
+				kv = append(kv, BKV{K: "v", V: v}, BKV{K: "seq", V: bint(m.PutSeq)}, BKV{K: "k", V: bs(k.pub)}, BKV{K: "sig", V: bs(refmodel.Bep44Sign(k.priv, nil, m.PutSeq, []byte(encV)))})
+			} else {
+				v, _, _ := refmodel.Parse(m.V)
+				kv = append(kv, BKV{K: "v", V: v}, BKV{K: "seq", V: bint(0)})
+			}
 		default:
 			kv = append(kv, BKV{K: "target", V: bs(m.Target)})
 		}
@@ -321,7 +335,9 @@ func runC08(sc C08Sc, c *kit.Case) *kit.Violation {
 				case m.Args == "none": // announce_peer / put without arguments: C08 says 203, C10 says silence
 					want = "e203-or-silence"
 				case m.Method == "announce_peer" || m.Method == "put":
-					if m.Args == "full" && m.Token == "valid" && m.Token != "" {
+					if m.Args == "full" && m.Token == "valid" && m.Method == "put" {
+						want = "one" // the store may refuse it (C12/C13 judge the code); it is answered exactly once either way
+					} else if m.Args == "full" && m.Token == "valid" {
 						want = "r"
 					} else {
 						want = "silence-or-one" // token rules belong to C10
@@ -331,7 +347,7 @@ func runC08(sc C08Sc, c *kit.Case) *kit.Violation {
 				default:
 					want = "r"
 				}
-				if want == "r" && (m.Method == "announce_peer" || m.Method == "put") {
+				if (want == "r" || want == "one") && (m.Method == "announce_peer" || m.Method == "put") {
 					// needs the token to have been obtained
 					if _, ok := tokens[i]; !ok {
 						want = "silence-or-one"
@@ -369,6 +385,10 @@ func runC08(sc C08Sc, c *kit.Case) *kit.Violation {
 							if ec, _ := got[0].ErrCode(); got[0].Y != "e" || ec != 203 {
 								return kit.Violatef("C08:expected-error-203", "%q without arguments answered with %s", m.Method, got[0].Describe())
 							}
+						}
+					case "one":
+						if len(got) != 1 {
+							return kit.Violatef("C08:no-reply", "correctly tokened put from %v (t=%q) got %d datagrams", m.Src, []byte(m.T), len(got))
 						}
 					case "any1":
 						if len(got) != 1 {
